@@ -14,7 +14,7 @@ import authfam as A  # noqa: E402
 import sigprops  # noqa: E402
 import genops  # noqa: E402
 from genops import rsx, deref, vkey, Variant, Struct  # noqa: E402
-from vlib import kspec  # noqa: E402
+from vlib import kspec, replay, Inconclusive  # noqa: E402
 from vlib.smithy import Model, snake  # noqa: E402
 
 LEVEL = "model_checking"
@@ -60,9 +60,65 @@ def field_mapping(rep):
     if not problems:
         rep.obligation("form fields are bound to the PutObject members the API model names (%d members, %d paths)" % (len(members), len(paths)),
                        "rsx+z3", "holds", time.time() - t0, queries=len(members))
+    dev = None
+    if problems:
+        try:
+            dev = field_witness(rep)[0]
+        except Exception:      # noqa: BLE001
+            dev = None
     for k, w in problems:
-        res = rep.violation(k, w, rep.save_cex(re.sub(r"[^A-Za-z0-9]+", "_", k), {"problem": w}), confirmed=False)
+        member = k.split(":")[-1]
+        res = rep.violation(k, w, rep.save_cex(re.sub(r"[^A-Za-z0-9]+", "_", k), {"problem": w, "native": dev}),
+                            confirmed=bool(dev) and (member in dev or not k.startswith("post-fields:binding:")))
         rep.obligation(k, "rsx+z3", res, 0)
+
+
+def field_witness(rep):
+    """real build: one signed form upload in which every string-valued header-equivalent field carries its own token; the typed
+    input the backend receives must show each token in the member the API model binds that field to.
+    -> ({member: what} deviations, number of members checked)"""
+    model = Model()
+    fields, expect = [], {}
+    for n_, (name, i) in enumerate(sorted(dict(model.members(model.input_shape("PutObject"))).items())):
+        if i["loc"] != "header" or i["target_type"] not in ("string", "enum") or name in ("ContentMD5",):
+            continue
+        w = i["wire"].lower()
+        if w in ("content-type", "content-length", "content-encoding", "expect") or w.startswith("x-amz-checksum") or w == "x-amz-sdk-checksum-algorithm":
+            continue                       # fields with a grammar or a meaning of their own for the upload
+        tok = "V%dv" % n_
+        fields.append((w, tok))
+        expect[name] = (snake(name), tok)
+    rq = A.post_form(fields=fields)
+    out = replay.run_scenarios([{"config": {"auth": {A.AK: A.SK}}, "request": rq}])[0]
+    rep.traces_validated += 1
+    inputs = [e.get("input", "") for e in out.get("events", []) if e["ev"] == "s3.put_object"]
+    if not inputs:
+        raise Inconclusive("the all-fields form upload did not reach the backend: status %s %s" % (out.get("status"), out.get("body_text", "")[:200]))
+    dbg = inputs[0]
+    dev = {}
+    for name, (f, tok) in expect.items():
+        m = re.search(r"\b%s: (?:Some\()?(?:[A-Za-z0-9_]+\()?\"([^\"]*)\"" % re.escape(f), dbg)
+        if not m or m.group(1) != tok:
+            dev[name] = "form field %s = %s, the backend's input has %s: %s" % (model.members(model.input_shape("PutObject")) and dict(model.members(model.input_shape("PutObject")))[name]["wire"], tok, f, m.group(1) if m else "absent")
+    return dev, len(expect)
+
+
+def field_witness_obligation(rep):
+    t0 = time.time()
+    try:
+        dev, n = field_witness(rep)
+    except Inconclusive as e:
+        rep.fail_inconclusive(str(e))
+        return
+    if n < 10:
+        rep.fail_inconclusive("form field witness: only %d members could be checked" % n)
+    elif dev:
+        name = sorted(dev)[0]
+        res = rep.violation("post-fields:witness:" + name, "real build: %s (%d members deviate)" % (dev[name], len(dev)), rep.save_cex("post_field_witness", dev), confirmed=True)
+        rep.obligation("form field witness", "replayer", res, time.time() - t0)
+    else:
+        rep.obligation("witness: a signed form upload with %d header-equivalent fields, each carrying its own token: every token arrives in the member "
+                       "the API model binds the field to" % n, "replayer(not solver-decided)", "holds", time.time() - t0, queries=n)
 
 
 def family():
@@ -129,6 +185,7 @@ def run(rep, tier):
     rep.encoded("crates/s3s/src/sig_v4/post_signature.rs", "PostSignatureInfo::extract (uninterpreted)")
     sigprops.check_paths(rep, "post", "C10 paths")
     field_mapping(rep)
+    field_witness_obligation(rep)
     sigprops.run_family(rep, "C10", family(), label="post form family")
     file_exactness_under_cuts(rep)
     rep.out("file exactness for arbitrary contents is validated by the family only (the multipart parser does not fit CBMC); "
